@@ -225,7 +225,7 @@ func (s *scte35) Data() []byte {
 }
 
 func uint40(buf []byte) gots.PTS {
-	return (gots.PTS(buf[0]&0x1) << 32) | (gots.PTS(buf[1]) << 24) | (gots.PTS(buf[2]) << 16) | (gots.PTS(buf[3]) << 8) | (gots.PTS(buf[4]))
+	return (gots.PTS(buf[0]) << 32) | (gots.PTS(buf[1]) << 24) | (gots.PTS(buf[2]) << 16) | (gots.PTS(buf[3]) << 8) | (gots.PTS(buf[4]))
 }
 
 // String returns a string representation of the SCTE35 message.
